@@ -17,6 +17,7 @@ type ctl struct {
 	gate    map[string]chan struct{} // tag -> release channel
 	done    map[string]bool
 	ignore  map[string]bool // hook points that never park
+	adoptAt map[string]string // hook point -> tag given to the first untagged goroutine that reaches it
 }
 
 func gid() uint64 {
@@ -41,6 +42,13 @@ func (c *ctl) stop() { sio.VerifSetYield(nil) }
 func (c *ctl) yield(point string) {
 	c.mu.Lock()
 	tag, ok := c.tagOf[gid()]
+	if !ok && c.adoptAt[point] != "" {
+		tag, ok = c.adoptAt[point], true
+		delete(c.adoptAt, point)
+		c.tagOf[gid()] = tag
+		c.gate[tag] = make(chan struct{})
+		c.done[tag] = false
+	}
 	if !ok || c.ignore[point] {
 		c.mu.Unlock()
 		return
@@ -71,6 +79,16 @@ func (c *ctl) spawn(tag string, f func()) {
 		delete(c.tagOf, gid())
 		c.mu.Unlock()
 	}()
+}
+
+// adopt: the first goroutine not started by spawn that reaches point is tagged and parked there
+func (c *ctl) adopt(point, tag string) {
+	c.mu.Lock()
+	if c.adoptAt == nil {
+		c.adoptAt = map[string]string{}
+	}
+	c.adoptAt[point] = tag
+	c.mu.Unlock()
 }
 
 func (c *ctl) where(tag string) (point string, done bool) {
